@@ -5,15 +5,16 @@
    Besides replaying the component model the driver evaluates, per session, the property monitor and the plain
    statements on the projected trace and cross-checks them against the theorems' predictions for the repaired
    variant (MODELBUG if the extracted code disagrees with what is proved). *)
-(* variants: "repaired" = v111 (/repo HEAD + ordered delivery), "head" = v101 = /repo HEAD; v<s><o><l>: fix_sent, fix_order, fix_l2stop;
-   "defective" = the code as first found *)
+(* variants: v<s><o><l><p> = fix_sent, fix_order, fix_l2stop, fix_prune on top of the first three repairs;
+   "head" = v1010 = /repo HEAD; "repaired" = v1111; "defective" = the code as first found *)
 let variant_of name =
-  let mk s o l = { fix_counters = true; fix_stop = true; fix_active = true; fix_sent = s; fix_order = o; fix_l2stop = l } in
+  let mk s o l p = { fix_counters = true; fix_stop = true; fix_active = true; fix_sent = s; fix_order = o; fix_l2stop = l; fix_prune = p } in
   match name with
-  | "repaired" | "" -> mk true true true
-  | "head" -> mk true false true            (* /repo HEAD *)
-  | "defective" -> { fix_counters = false; fix_stop = false; fix_active = false; fix_sent = false; fix_order = false; fix_l2stop = false }
-  | s when String.length s = 4 && s.[0] = 'v' -> mk (s.[1] = '1') (s.[2] = '1') (s.[3] = '1')
+  | "repaired" | "" -> mk true true true true
+  | "head" -> mk true false true false
+  | "defective" -> { fix_counters = false; fix_stop = false; fix_active = false; fix_sent = false; fix_order = false;
+                     fix_l2stop = false; fix_prune = false }
+  | s when String.length s = 5 && s.[0] = 'v' -> mk (s.[1] = '1') (s.[2] = '1') (s.[3] = '1') (s.[4] = '1')
   | s -> failwith ("unknown variant " ^ s)
 
 let c4_of a b c d = { rxb = n_of_decimal a; txb = n_of_decimal b; rxp = n_of_decimal c; txp = n_of_decimal d }
@@ -66,6 +67,9 @@ let run_case v line =
     let g = ref (List.map (fun _ -> sst0) ss) in
     let traces = Array.make k [] in      (* per session: reversed list of (local event, calls ISSUED) *)
     let arrived = Array.make k [] in     (* per session: reversed list of calls ARRIVED at the provider *)
+    let atrace = Array.make k [] in      (* per session: reversed list of (notification, calls ARRIVED during it) *)
+    let pruned = Array.make k false in   (* excuse P: the session's accounting was dropped by an orphan prune *)
+    let delayed = Array.make k false in  (* excuse D: a Start of the session was held back *)
     let held = Array.make k [] in        (* per session: calls issued but delayed (oldest first) *)
     let hold_start = ref false in
     let hold_int = ref false in          (* Accounting-Responses of Interims are being held back *)
@@ -75,16 +79,25 @@ let run_case v line =
     let racy = ref false in
     let nops = List.length ops in
     let step_one ev =
+      let before = !g in
       let r = gstep v bk tys !g ev in
       g := List.map fst r;
+      (match ev with
+       | GPrune true -> List.iteri (fun j (s0, s1) -> if s0.cache <> None && s1.cache = None then pruned.(j) <- true)
+                          (List.combine before !g)
+       | _ -> ());
       List.iteri (fun j (_, o) -> match project bk (nat_of_int j) ev with
           | Some le -> traces.(j) <- (le, o) :: traces.(j)
           | None -> ()) r;
       (* asynchronous delivery: which of the issued calls arrive now *)
       List.concat (List.mapi (fun j (_, o) ->
           let (h', arr) = issue v !hold_start held.(j) o in
+          if !hold_start && List.mem Start o then delayed.(j) <- true;
           held.(j) <- h';
           arrived.(j) <- List.rev_append arr arrived.(j);
+          (match project bk (nat_of_int j) ev with
+           | Some le -> atrace.(j) <- (le, arr) :: atrace.(j)
+           | None -> if arr <> [] then atrace.(j) <- (EPrune false, arr) :: atrace.(j));
           List.map (fun x -> (j, show_out j x)) arr) r) in
     let groups = List.mapi (fun oi op ->
         if !racy then raise Bad;
@@ -140,6 +153,7 @@ let run_case v line =
               let l = held.(j) in
               held.(j) <- [];
               arrived.(j) <- List.rev_append l arrived.(j);
+              if l <> [] then atrace.(j) <- (EPrune false, l) :: atrace.(j);
               let rs = pending_resp.(j) in
               pending_resp.(j) <- [];
               let rt = List.map (fun ok ->
@@ -172,19 +186,30 @@ let run_case v line =
         let arr = List.rev arrived.(j) in
         (* brk / mono / snt / ord are judged on what ARRIVED at the provider, stp on the notifications *)
         let brk = bracketed false arr and stp = stops_ok false t and mono = nondecreasing c4z arr
-        and snt = nondecreasing_sent c4z arr and ord = strict false arr in
+        and snt = nondecreasing_sent c4z arr and ord = strictT BClosed (List.rev atrace.(j)) in
         let ibrk = bracketed false (outputs t) and imono = nondecreasing c4z (outputs t)
-        and isnt = nondecreasing_sent c4z (outputs t) and iord = strict false (outputs t) in
+        and isnt = nondecreasing_sent c4z (outputs t) and iord = strictT BClosed t in
         let gj = List.nth tys j in
         let wraps = lrun_wraps v gj sst0 evs and np = no_prune evs in
         (* cross-check of the extracted code against what is proved for the repaired variant *)
         let (_, t') = lrun v gj sst0 evs in
+        let fp_or_np = v.fix_prune || np in
+        (* cross-check of the extracted code against the theorems (variants with fix_sent) *)
         let bug = t' <> t ||
-                  ((v = variant_of "repaired" || v = variant_of "head") &&
-                   ((not wraps && not (accepted true t)) || not stp || (np && not wraps && not (ibrk && imono && isnt))
-                    || (np && not wraps && never_restored evs && not iord))) ||
-                  (v = variant_of "repaired" && np && not wraps && (not snt || (never_restored evs && not ord))) in
-        Printf.sprintf "v%d=%s%s%s%s%s%s" j (b brk) (b stp) (b mono) (b snt) (b ord) (if bug then "MODELBUG" else "")) ss in
+                  (v.fix_sent && not wraps &&
+                   (not (accepted true v.fix_prune t) || not stp || (fp_or_np && not (ibrk && isnt && iord)) || (np && not imono))) in
+        (* Every verdict bit that is 0 must have a stated excuse, else the line is marked UNEXCUSED and cannot match:
+             W  a uint64 cumulative wrapped (excuses mono, snt)
+             P  the accounting was dropped by an orphan prune and the variant sends no Stop for it (known finding)
+             D  a Start of the session was held back and the variant does not order its calls (known finding)
+           stp is never excused. *)
+        let exc_p = pruned.(j) && not v.fix_prune and exc_d = delayed.(j) && not v.fix_order in
+        let any = exc_p || exc_d in
+        let unexcused = (not brk && not any) || not stp || (not mono && not (wraps || any))
+                        || (not snt && not (wraps || any)) || (not ord && not any) in
+        Printf.sprintf "v%d=%s%s%s%s%s%s%s%s%s" j (b brk) (b stp) (b mono) (b snt) (b ord)
+          (if pruned.(j) then "P" else "") (if delayed.(j) then "D" else "")
+          (if unexcused then "UNEXCUSED" else "") (if bug then "MODELBUG" else "")) ss in
     String.concat " " groups ^ " ; " ^ (if !racy then "racy" else if !any_held_int then "held" else String.concat " " dump) ^ " ; " ^ String.concat " " verdicts
   | _ -> raise Bad
 
